@@ -22,7 +22,7 @@ def corrupt(ev, rnd, depth=0):
                 ev[k] = not v
                 return k
             if isinstance(v, int):
-                ev[k] = v + 7
+                ev[k] = v + 1000
                 return k
             if isinstance(v, str) and v:
                 ev[k] = {"admit": "refuse", "refuse": "admit", "healthy": "offline", "offline": "healthy"}.get(v, v + "X")
@@ -41,7 +41,7 @@ def corrupt(ev, rnd, depth=0):
                 ev[i] = not v
                 return str(i)
             if isinstance(v, int):
-                ev[i] = v + 7
+                ev[i] = v + 1000
                 return str(i)
             if isinstance(v, str) and v:
                 ev[i] = v + "X"
